@@ -110,6 +110,12 @@ TABLE = [
     ('R11', 'S.as_bytes() -> vstr_as_bytes(S)', re.compile(r'\b(filename)\.as_bytes\(\)'), r'vstr_as_bytes(\1)'),
     ('R11', 'String::from_utf8 -> vstring_from_utf8', re.compile(r'\bString::from_utf8\('), 'vstring_from_utf8('),
     ('R4', 'std::io::Empty -> VEmpty', re.compile(r'\bstd::io::Empty\b'), 'VEmpty'),
+    ('R4', 'files_info: HashMap::new() -> VNameMap::new()', re.compile(r'files_info: HashMap::new\(\)'), 'files_info: VNameMap::new()'),
+    ('R4', 'HashMap::new() -> VIdMap::new()', re.compile(r'\bHashMap::new\(\)'), 'VIdMap::new()'),
+    ('R4', 'hash.finalize().into() -> hash.finalize32()', re.compile(r'\.finalize\(\)\.into\(\)'), '.finalize32()'),
+    ('R11', 'ids.contains(X) -> vvec_contains(ids, X)', re.compile(r'\b(ids|id_failsafe_done)\.contains\('), r'vvec_contains(&\1, '),
+    ('R11', 'S.to_string() on a &str -> vstr_to_string(S)', re.compile(r'\b(filename)\.to_string\(\)'), r'vstr_to_string(\1)'),
+    ('R11', 'S.len() on a &str -> vstr_len(S)', re.compile(r'\b(filename)\.len\(\)'), r'vstr_len(\1)'),
     ('R4', 'Cursor::new -> VCursor::new', re.compile(r'(?<![A-Za-z_:])Cursor::new\('), 'VCursor::new('),
     ('R8', '(&mut X).take(N).read_to_end(&mut V) -> vio_read_to_end_take',
      re.compile(r'\(&mut ([\w.]+)\)\s*\.take\(([^;]*?)\)\s*\.read_to_end\(&mut (\w+)\)'), r'vio_read_to_end_take(&mut \1, \2, &mut \3)'),
@@ -152,9 +158,43 @@ OPTIONAL = {
 }
 
 
+MACROS = {'check_state': 'mla/src/lib.rs', 'check_state_file_opened': 'mla/src/lib.rs', 'update_error': 'mla/src/lib.rs'}
+
+
+def expand_macros(text, gen, hits):
+    """R7: expand the crate's own macro_rules! (one arm each) from their REAL text by substitution of $x / $y."""
+    from . import rustscan as rs
+    from .gen import read_repo, Undecided
+    for name, file in MACROS.items():
+        rx = re.compile(r'\b' + name + r'!\s*\(([^;]*?)\)\s*;')
+        if not rx.search(text):
+            continue
+        body = rs.find_macro(read_repo(file), name)
+        m = re.search(r'\(\s*\$x:(\w+)\s*(,|=)\s*\$y:(\w+)\s*\)\s*=>\s*\{(.*)\}\s*;?\s*\}\s*$', body, re.S)
+        if not m:
+            raise Undecided(f'macro {name}: unexpected shape, cannot expand')
+        sep, trans = m.group(2), m.group(4)
+        # strip comments and attributes, put on one line
+        trans = ''.join(trans[s0:e0] if k != 'comment' else ' ' for k, s0, e0 in rs.tokenize(trans))
+        trans = re.sub(r'#\[[^\]]*\]', ' ', trans)
+        trans = re.sub(r'\s+', ' ', trans).strip()
+
+        def f(mm):
+            args = mm.group(1)
+            parts = args.split(sep, 1)
+            if len(parts) != 2:
+                raise Undecided(f'macro {name}: cannot split arguments `{args}`')
+            x, y = parts[0].strip(), parts[1].strip()
+            t = trans.replace('$x', x).replace('$y', y)
+            hits[f'R7:{name}! expanded from its macro_rules text'] = hits.get(f'R7:{name}! expanded from its macro_rules text', 0) + 1
+            return _keep_nl(mm.group(0), '{ ' + t + ' };')
+        text = rx.sub(f, text)
+    return text
+
+
 def apply(text, gen, enabled='', fn_id='?', local=()):
     hits = {}
-    out = text
+    out = expand_macros(text, gen, hits)
 
     def run(rid, name, rx, repl):
         nonlocal out
